@@ -108,6 +108,11 @@ claim("C23", T + "who-may-decode inventory (only rlp.DecodeBytes with its error 
       "The RLP decoder's canonical-size checks, curve arithmetic and byte round trips are NOT decided. Decides that transaction, data, signature and check bytes are decoded only by rlp.DecodeBytes (trailing input rejected) with the error returned; that no decoded type carries a lenient rlp tag and every `tail` field is rejected when non-empty by its live handler; that both recovery functions reach Ecrecover only behind the one-byte V bound and ValidateSignatureValues(byte(V−27), R, S, true) on the R, S they serialise; that ValidateSignatureValues rejects s > N/2 under that flag and v ∉ {0,1}; and that Transaction.Sender / Check.Sender recover from their own hash and signature.",
       TRUST, "DESIGN.md §4 C23")
 
+
+claim("C17", T + "gate facts on the selection site of GetNewCandidates, constant evaluation (1000 BIP, 64, tail index 100), list provenance through updateValidators, dominance of the keep-validator gate over every effect of DeleteCandidate, same-object provenance of kicked stakes and comparison polarity",
+      "That the comparator orders by stake, proportionality and all arithmetic are NOT decided. Decides that validators are drawn only from the ordered candidate list, online and with at least BipToPip(1000) of stake, cut to at most 64, that the same list reaches the state and Tendermint with power floored at 1 and power-0 updates for dropped validators, that a current validator is never deleted, that exactly the candidates ranked beyond 100 are deleted with every stake and pending update frozen at full value for the unbond period, and that at a full candidate the incoming stake loses only to a strictly greater smallest stake, the loser going to the waitlist with its own owner, full value and coin.",
+      TRUST, "DESIGN.md §4 C17")
+
 PENDING = "check not built yet in this round; see DESIGN.md §4 for the planned static rule"
 for p in ["C%02d" % i for i in range(1, 30)]:
     if p not in CLAIMS and p != "C12":
